@@ -61,7 +61,7 @@ def discharge(pc, goal, timeout_ms=10000, use_cvc5=True, want_model=True):
             r2 = s2.check()
             if r2 == z3.unsat:
                 return "proved", "z3-ematching" if ematch else "z3", time.time() - t0, None, None
-            if r2 == z3.sat and not ematch:
+            if r2 == z3.sat and not ematch and len(rel) == len(pc):
                 return "refuted", "z3", time.time() - t0, s2.model(), None
     s.add(*rel)
     s.add(z3.Not(goal))
@@ -70,13 +70,28 @@ def discharge(pc, goal, timeout_ms=10000, use_cvc5=True, want_model=True):
     if r == z3.unsat:
         return "proved", "z3", dt, None, None
     if r == z3.sat:
+        if len(rel) < len(pc):
+            # the cone-of-influence slice is only an optimisation for PROVING: a counter-model of the slice is a
+            # counter-example only if the rest of the path condition is satisfiable together with it (a path kept
+            # because its feasibility query timed out may be infeasible).  Re-check against the whole path condition.
+            sf = z3.Solver()
+            sf.set("timeout", timeout_ms)
+            sf.add(*pc)
+            sf.add(z3.Not(goal))
+            rf = sf.check()
+            dt = time.time() - t0
+            if rf == z3.unsat:
+                return "proved", "z3", dt, None, None
+            if rf == z3.sat:
+                return "refuted", "z3", dt, sf.model(), None
+            return "unknown", "z3", dt, None, None
         return "refuted", "z3", dt, s.model(), None
     smt2 = s.to_smt2()
     if use_cvc5 and os.path.exists(CVC5):
         st2, dt2 = run_cvc5(smt2, timeout_ms)
         if st2 == "unsat":
             return "proved", "cvc5", dt + dt2, None, smt2
-        if st2 == "sat":
+        if st2 == "sat" and len(rel) == len(pc):
             return "refuted", "cvc5", dt + dt2, None, smt2
         dt += dt2
     # last resort for formulas mixing non-linear arithmetic with uninterpreted functions (trigonometry): replace every
@@ -91,7 +106,7 @@ def discharge(pc, goal, timeout_ms=10000, use_cvc5=True, want_model=True):
     dt += dt3
     if st3 == "unsat":
         return "proved", "z3-uf-abstraction", dt, None, smt2
-    if st3 == "sat":
+    if st3 == "sat" and len(rel) == len(pc):
         return "refuted", "z3-uf-abstraction", dt, m3, smt2
     return "unknown", "z3+cvc5", dt, None, smt2
 
@@ -323,7 +338,8 @@ class FunctionVerifier:
                     g = eng.spec_bool(s1, text, env2, "prove", c.spec_module)
                     if not canary_refuted[label]:
                         stt, _, _, _, _ = discharge(s1.pc, g, 3000, use_cvc5=False)
-                        if stt == "refuted":
+                        if stt != "proved":
+                            # refuted, or not decided within the budget: either way the false clause was NOT proved
                             canary_refuted[label] = True
                 for i, text in enumerate(c.cover):
                     if i not in covered and eng.feasible(s1.pc, eng.spec_bool(s1, text, env2, "assume",
